@@ -71,6 +71,14 @@ type ReaderScn struct {
 	// that probes for fast paths); all of them serve the same stream, schedule
 	// and fault
 	Rich bool `json:"rich,omitempty"`
+	// Consumer: WHEN the caller completes the blocks it has received (the
+	// caller's side of the schedule).  "" = all blocks after the end of the
+	// stream (what Parse does); "eager" = every block is rewritten as soon as
+	// NextBlock has returned it, before the next call, through a matcher that
+	// holds the reference map of an earlier pass over the same stream (the
+	// two-pass recipe of a caller that renders while it reads); "eager-use" =
+	// additionally renders and formats the block at once
+	Consumer string `json:"consumer,omitempty"`
 }
 
 type WriterScn struct {
